@@ -49,6 +49,11 @@ def canonical_fields(rng, quick):
     out.append(("req-i64", "required", T("i64")))
     out.append(("req-string", "required", T("string")))
     out.append(("opt-binary", "optional", T("binary")))
+    # the nocopy option after every spelling of the annotation (incl. the omitted one: "N,req,,nocopy")
+    out.append(("string-nocopy", "default", T("string")))
+    out.append(("binary-nocopy", "required", T("binary")))
+    out.append(("opt-string-nocopy", "optional", T("string", True)))
+    out.append(("typedef-string-nocopy", "default", dict(T("string"), gotype="MyStr", ann="MyStr")))
     out.append(("pstruct", "default", ST("Leaf", True)))
     out.append(("opt-pstruct", "optional", ST("Leaf", True)))
     out.append(("vstruct", "default", ST("Leaf", False)))
@@ -113,15 +118,18 @@ def omittable(t):
 def spell(fid, req, t, label, rng):
     """-> list of (spelling label, field dict with ftag/ttag)"""
     out = []
+    nocopy = label.endswith("-nocopy")
     for al, ann in annot_variants(t, rng):
         def mk(ftag=None, ttag=None, sl=""):
-            f = field(fid, req, copy.deepcopy(t))
+            f = field(fid, req, copy.deepcopy(t), nocopy=nocopy)
             if ftag is not None:
                 f["ftag"] = ftag
             if ttag is not None:
                 f["ttag"] = ttag
             return (al + sl, f)
         parts = [str(fid), req] + ([ann] if ann is not None else [])
+        if nocopy:
+            parts = [str(fid), req, ann if ann is not None else "", "nocopy"]
         out.append(mk(ftag=",".join(parts)))
         out.append(mk(ttag=",".join(["wireName"] + parts), sl="+thrift"))
         out.append(mk(ftag=" , ".join(parts) + " ", sl="+commasp"))
@@ -130,7 +138,7 @@ def spell(fid, req, t, label, rng):
             out.append(mk(ftag=",".join(["00" + str(fid)] + parts[1:]), sl="+zeros"))
             if req == "default" and ann is None:
                 pass
-        if req == "default" and ann is None:
+        if req == "default" and ann is None and not nocopy:
             out.append(mk(ftag=str(fid), sl="+idonly"))
             out.append(mk(ttag="n,%d" % fid, sl="+thrift-idonly"))
     return out
@@ -221,6 +229,9 @@ def run(prop, tier, seed, work):
             steps = [{"op": "size", "ty": name, "v": 0},
                      {"op": "encode", "ty": name, "v": 0, "buf": {"mode": "rel", "n": 0, "extra": 0}},
                      {"op": "decode", "ty": name, "from": 1, "dest": "fresh", "orig": 0}]
+            if any(f.get("nocopy") for f in d["fields"]):
+                # the option must take effect however the annotation before it is spelled: the field views the input
+                steps += [{"op": "walk", "objs": [2]}, {"op": "overwrite", "obj": 2, "byte": 255}, {"op": "recheck", "obj": 2, "after": "overwrite"}]
             scen.append({"sid": sid, "prop": prop, "vals": [v], "steps": steps, "tags": tags, "dkey": sid})
     suite.run_batches(res, work, [Batch("spellings", defs, scen)])
     return suite.finish(res, RULE, ASSUME)
